@@ -7,6 +7,8 @@ CONSTANTS
   DelAmts = {}
   MinSelf = 100
   MinSpec = 1000
+  MinSpecHigh = 2000
+  HighChains = {"c2"}
   Fixed = TRUE
   MaxOps = 1000000
   GenHist = FALSE
